@@ -35,9 +35,12 @@ JANET = r'''
       # fibers sleep a different number of turns first, so that their sched_id counters differ
       "g" (let [[fs x] (string/split ":" (string/slice op 1)) f (scan-number fs)]
             (put fibers f (ev/spawn (repeat (if nosleep 0 (% f 3)) (ev/sleep 0)) (try (do (ev/give c (scan-number x)) (array/push glog f)) ([e] nil)))))
+      # supervisor event: a fiber supervised by the channel finishes; janet_loop1 pushes [:ok x nil] with mode 2 (never parks)
+      "s" (let [[fs x] (string/split ":" (string/slice op 1)) f (scan-number fs) xv (scan-number x)]
+            (put fibers f (ev/go (fn [&] (repeat (if nosleep 0 (% f 2)) (ev/sleep 0)) xv) nil c)))
       "t" (let [f (scan-number (string/slice op 1))]
             (put fibers f (ev/spawn (repeat (if nosleep 0 (% f 2)) (ev/sleep 0))
-                            (try (let [v (ev/take c)] (if (nil? v) (array/push wlog f) (array/push dlog [f v]))) ([e] nil)))))
+                            (try (let [v0 (ev/take c) v (if (tuple? v0) (v0 1) v0)] (if (nil? v) (array/push wlog f) (array/push dlog [f v]))) ([e] nil)))))
       "a" (let [fb (get fibers (scan-number (string/slice op 1)))] (if (and fb (fiber/can-resume? fb)) (ev/cancel fb "abandon")))
       "c" (ev/chan-close c))
     (unless burst
@@ -63,6 +66,9 @@ def corpus_sequences():
         ["L0", "g1:10", "g2:20", "g4:30", "a1", "a2", "t5", "t6", "t7"],
         ["L1", "g1:10", "g2:20", "g3:30", "g4:40", "a2", "a3", "t5", "t6", "c"],
         ["L2", "g1:1", "g2:2", "g3:3", "g5:4", "a3", "t6", "t7", "t8", "t9"],
+        # supervisor events: over capacity they neither park nor get lost; order kept
+        ["L1", "s1:10", "s2:20", "s3:30", "t4", "t5", "t6", "g7:40", "t8"],
+        ["L0", "t1", "t2", "s3:10", "s4:20", "s5:30", "t6"],
         # bursts: several hand-offs in the self pipe / several tasks in the run queue at once
         # two fibers of one thread: 8 takes item 2 directly before the loop looks at the pipe that carries item 1 for fiber 7
         # (per_thread_order_counterexample: got 8:2 before 7:1; each fiber still sees send order)
@@ -122,10 +128,15 @@ def gen_sequence(rng):
             ops.append("t%d" % nf)
             waiting.append(nf)
             nf += 1 + rng.below(2)
-        elif k < 65:
+        elif k < 55:
             nx += 1
             ops.append("g%d:%d" % (nf, nx))
             waiting.append(nf)
+            nf += 1 + rng.below(2)
+        elif k < 65 and not closed:
+            # supervisor event (mode-2 push); not after a close: janet_loop1 would panic "cannot write to closed channel"
+            nx += 1
+            ops.append("s%d:%d" % (nf, nx))
             nf += 1 + rng.below(2)
         elif k < 92 and waiting:
             f = rng.choice(waiting)
@@ -173,6 +184,7 @@ def compare(ctx, janet, exe, seqs, flags):
         cov["ops"] += len(s) - 1
         cov["parked_writer_histories"] = cov.get("parked_writer_histories", 0) + (1 if " g=" in a and s[0] != "L100000" else 0)
         cov["abandon"] += sum(1 for o in s if o[0] == "a")
+        cov["supervisor_pushes"] = cov.get("supervisor_pushes", 0) + sum(1 for o in s if o[0] == "s")
         cov["close"] += sum(1 for o in s if o == "c")
         if a != b:
             diffs.append({"ops": " ".join(s0), "impl": a, "model": b})
@@ -185,7 +197,7 @@ def compare(ctx, janet, exe, seqs, flags):
             except (ValueError, IndexError):
                 impl_oracle_failures.append({"sig": "malformed-receipt", "ops": " ".join(s0), "observed": a, "why": "single-loop history `%s`: unparsable observation %r" % (" ".join(s0), a[:200])})
                 continue
-            given = [o.split(":")[1] for o in s if o[0] == "g"]
+            given = [o.split(":")[1] for o in s if o[0] in "gs"]
             cnt = 0
             last = a.split(" ; ")[-1]
             cnt = int(last.split(" ")[0])
